@@ -18,6 +18,7 @@ import (
 	"math"
 	"math/big"
 	"net"
+	"net/url"
 	"os"
 	"reflect"
 	"runtime"
@@ -352,6 +353,7 @@ func boundaryFloats32() []float32 {
 
 func genC09(cw *caseWriter, seed uint64, tier string) {
 	r := newRng(seed)
+	c09Lines(cw)
 	// 8-bit sources exhaustively; 16-bit sources exhaustively in the thorough tier, and within
 	// ±260 of every power of two / bound plus a random sample in the quick tier
 	want16 := func(v int) bool {
@@ -588,7 +590,7 @@ func c10Sources() []interface{} {
 	x := 5
 	s := "s"
 	t0 := time.Date(2021, 9, 24, 21, 21, 0, 0, time.UTC)
-	srcs := []interface{}{
+	srcs := []interface{}{(*time.Time)(nil), (*url.URL)(nil), (*big.Int)(nil), (*net.IP)(nil), new(big.Int), &url.URL{Host: "h"}, time.Duration(5),
 		nil,
 		int(0), int(-3), int(1 << 40), int64(0), int64(math.MinInt64), int64(1632518460), int32(7), int32(math.MaxInt32), int16(-2), int8(-128), int8(100),
 		uint(0), uint(math.MaxUint64), uint64(1 << 63), uint64(9), uint32(math.MaxUint32), uint32(3), uint16(65535), uint8(255), uint8(0),
@@ -728,9 +730,23 @@ func (s stringerNum) String() string { return strconv.Itoa(int(s)) }
 type textNum string
 
 func (t textNum) MarshalText() ([]byte, error) { return []byte(t), nil }
-func (t textNum) Int64() (int64, error)         { return strconv.ParseInt(string(t), 10, 64) }
+func (t textNum) Int64() (int64, error)        { return strconv.ParseInt(string(t), 10, 64) }
 
 func atomicOf(v int64) *atomic.Int64 { a := new(atomic.Int64); a.Store(v); return a }
+
+// c09Lines: integer literals at and past the float64-exact range and the 64-bit bounds, as JSON numbers and strings,
+// through an importer and an exporter declaring the same typed integer column (how a reader hands a token to a column
+// is part of "the exact value or an error")
+func c09Lines(cw *caseWriter) {
+	for _, f := range []string{"numeric", "string", "timestamp", "auto"} {
+		for _, ty := range []string{"i64", "u64", "int", "i32", "u8"} {
+			cols := []colDesc{{name: "c", format: f, ty: ty}, {name: "d", format: "auto", ty: "none"}}
+			for _, txt := range []string{"9007199254740993", "9007199254740992", "9223372036854775807", "-9223372036854775808", "18446744073709551615", "18446744073709551616", "255", "256", "4294967296", "0", `"00"`, `"-00"`, `"9007199254740993"`} {
+				emitLine(cw, "C09", cols, cols, []byte(`{"c":`+txt+`,"d":`+txt+`}`), true)
+			}
+		}
+	}
+}
 
 func genC10(cw *caseWriter, seed uint64, tier string) {
 	// a slice of the template / row histories (refused imports included) under this property's name: declared columns keep
@@ -759,6 +775,22 @@ func genC10(cw *caseWriter, seed uint64, tier string) {
 				if i%4 == 1 {
 					// … into a cell that already holds what the SAME value gave (imported by key, through the cell, from text)
 					emitImpAfter(cw, "C10", f, ty, []interface{}{v, v, v}, v)
+				}
+			}
+		}
+	}
+	// ready-made Values of every declaration (a raw type or none, every format) holding things the receiving column's
+	// raw type would refuse or convert, imported by key, through a map and through the cell: the cell takes the Value's
+	// declaration AND content — never the column's declaration around the Value's uncast content
+	k := 0
+	for _, f := range []string{"string", "numeric", "binary", "auto", "timestamp"} {
+		for _, ty := range []string{"none", "i64", "u8", "f64", "str", "bytes", "time"} {
+			for _, f2 := range []string{"auto", "string", "binary", "numeric"} {
+				for _, ty2 := range []string{"none", "i16", "bytes"} {
+					for _, held := range []interface{}{"abc", 300, []byte{1, 2, 3}, 1.5, nil} {
+						k++
+						emitImpValue(cw, "C10", f, ty, f2, ty2, held, k)
+					}
 				}
 			}
 		}
@@ -951,6 +983,23 @@ func genC11(cw *caseWriter, seed uint64, tier string) {
 					emitImpAfter(cw, "C11", "binary", ty, []interface{}{"AAAAAAAAAAAAAAAAAAAAAAAAAA==", "!!", "AAAAAAAAAAAAAAAAAAAAAAAAAA=="}, base64.StdEncoding.EncodeToString(b))
 				}
 			}
+		}
+	}
+	// ready-made Values holding byte slices of every length imported into binary(T) columns (the Value's declaration —
+	// none — replaces the column's: the cell then declares what it holds), and base64 payloads handed to the CELL's own
+	// json.Unmarshaler: ill-sized payloads are refused there as everywhere
+	kk := 0
+	for _, ty := range fixedWidthTys {
+		for n := 0; n <= 9; n++ {
+			b := make([]byte, n)
+			for j := range b {
+				b[j] = byte(3 + j)
+			}
+			for _, f2 := range []string{"binary", "auto"} {
+				kk++
+				emitImpValue(cw, "C11", "binary", ty, f2, "none", b, kk)
+			}
+			emitImpVia(cw, "C11", "binary", ty, base64.StdEncoding.EncodeToString(b))
 		}
 	}
 	// the same through whole lines — the library route and the jl binary with the column declared in the
@@ -1192,6 +1241,32 @@ func genC12(cw *caseWriter, seed uint64, tier string) {
 			}
 			for _, txt := range []string{`"NaN"`, `"nan"`, `"Inf"`, `"+Inf"`, `"-Inf"`, `"Infinity"`, `"-infinity"`, `"1e999"`, `1e999`, `"0x1p-2"`, `"1.5"`, `2.5`} {
 				emitLine(cw, "C12", to, to, []byte(`{"a":1,"x":`+txt+`}`), true)
+			}
+		}
+	}
+	// the text a row hands out for a float it holds in an Auto / Hidden / Numeric / String column (GetString): a plain
+	// decimal literal, whatever the magnitude
+	for _, f := range []jsonline.Format{jsonline.Auto, jsonline.Hidden, jsonline.Numeric, jsonline.String} {
+		for _, v := range []interface{}{1e21, 1.5e300, 1e-7, 5e-324, float32(1e21), float32(3.4028235e38), float32(1e-45), 123456789.25, uint64(18446744073709551615), int64(-9007199254740993), 0.1} {
+			row := jsonline.NewRow()
+			row.SetValue("v", jsonline.NewValue(v, f, nil))
+			emitGetterFor(cw, "C12", row, "GetString", "v", func(r jsonline.Row) interface{} { return r.GetString("v") })
+			row2 := jsonline.NewRow()
+			row2.Set("v", v)
+			emitGetterFor(cw, "C12", row2, "GetString", "v", func(r jsonline.Row) interface{} { return r.GetString("v") })
+		}
+	}
+	// integers no float64 holds, through the command with a typed input descriptor and an output descriptor that names
+	// no raw type (and the reverse): the literal comes out digit for digit
+	if jlBin() != "" {
+		for _, d := range [][2]colDesc{{{name: "u", format: "numeric", ty: "u64"}, {name: "u", format: "numeric", ty: "none"}}, {{name: "u", format: "numeric", ty: "i64"}, {name: "u", format: "numeric", ty: "none"}},
+			{{name: "u", format: "numeric", ty: "none"}, {name: "u", format: "numeric", ty: "u64"}}, {{name: "u", format: "numeric", ty: "u64"}, {name: "u", format: "string", ty: "none"}}, {{name: "u", format: "auto", ty: "none"}, {name: "u", format: "numeric", ty: "none"}}} {
+			for _, txt := range []string{"18446744073709551615", "9007199254740993", "-9007199254740993", "9223372036854775807"} {
+				line := []byte(`{"u":` + txt + `}`)
+				emitLine(cw, "C12", []colDesc{d[0]}, []colDesc{d[1]}, line, true)
+				jlRouteCount = jlRouteCount/jlEvery*jlEvery + jlEvery
+				emitLineJl(cw, "C12", []colDesc{d[0]}, []colDesc{d[1]}, line)
+				jlRouteCount += jlEvery
 			}
 		}
 	}
